@@ -1507,6 +1507,19 @@ func boundedBelow(a provAlt, lo int64) bool {
 	if k, ok := constInt(a.leaf); ok {
 		return k >= lo
 	}
+	if call, ok := strip(a.leaf).(*ssa.Call); ok {
+		if bi, isB := call.Call.Value.(*ssa.Builtin); isB && (bi.Name() == "min" || bi.Name() == "max") {
+			all, any := true, false
+			for _, arg := range call.Call.Args {
+				if boundedBelow(provAlt{arg, a.conds, a.alias}, lo) {
+					any = true
+				} else {
+					all = false
+				}
+			}
+			return bi.Name() == "min" && all || bi.Name() == "max" && any
+		}
+	}
 	lk := valKey(a.leaf)
 	for _, cd := range a.conds {
 		bo, ok := cd.V.(*ssa.BinOp)
